@@ -133,7 +133,7 @@ Qed.
 (* shape of one unfolding, to keep the case analysis in one place *)
 Lemma eb_unfold f anc index :
   eb g (S f) anc index =
-  if zmem index anc then Some [(0%Z, [])]
+  if zmem index anc then Some []
   else match index with
        | Z0 => Some [(0%Z, [0%Z])]
        | Zneg _ => Some [(index, [index])]
